@@ -51,6 +51,9 @@ pub struct Case {
     /// operations on other parts of the store: (before query number, operation)
     #[serde(default)]
     pub noise: Vec<(u16, Noise)>,
+    /// before this query the document is removed, imported again and filled with these entries (validated cases only)
+    #[serde(default)]
+    pub rebuild: Option<(u16, Vec<EGen>)>,
 }
 
 /// Synthetic ids at byte-order boundaries (used for namespaces and authors alike).
@@ -390,8 +393,9 @@ impl Prop for C05 {
         let nq = tier.pick(40, 60);
         let raw = prop::option::weighted(0.2, (0u8..8, vec(0u8..8, 1..=3)));
         let noise = prop_oneof![1 => Just(vec![]), 1 => vec((any::<u16>(), crate::gen::noise()), 1..=8)];
-        (prop::bool::weighted(0.1), pools(8), vec(egen(), 0..=16), vec(qgen(), 1..=nq), raw, noise)
-            .prop_map(|(file, pools, entries, queries, raw, noise)| Case { file, pools, entries, queries, raw, noise })
+        let rebuild = prop::option::weighted(0.2, (any::<u16>(), vec(egen(), 0..=10)));
+        (prop::bool::weighted(0.1), pools(8), vec(egen(), 0..=16), vec(qgen(), 1..=nq), raw, noise, rebuild)
+            .prop_map(|(file, pools, entries, queries, raw, noise, rebuild)| Case { file, pools, entries, queries, raw, noise, rebuild })
             .boxed()
     }
 
@@ -401,7 +405,7 @@ impl Prop for C05 {
             let keys = c.pools.keys();
             verif::set_clock(Some(T0 + 3));
             let mut st = AnyStore::new(ctx, c.file)?;
-            let (ns, authors, contents, raw) = match &c.raw {
+            let (ns, authors, mut contents, raw) = match &c.raw {
                 None => {
                     let authors = c.pools.authors();
                     let nssec = namespace(c.pools.ns).clone();
@@ -462,6 +466,23 @@ impl Prop for C05 {
                     }
                     if o.failed() {
                         break;
+                    }
+                }
+                if let (Some((at, more)), false) = (&c.rebuild, raw) {
+                    if crate::engine::idx(*at, c.queries.len()) == qi {
+                        let nssec = namespace(c.pools.ns).clone();
+                        es(st.store.remove_replica(&ns))?;
+                        let entries: Vec<SignedEntry> = more.iter().map(|e| sign(&nssec, &to_espec(e, &authors, &keys))).collect();
+                        let Ok(model) = populate(&ctx.rt, &mut st.store, &nssec, &entries) else {
+                            o.class("skipped/ingress-disagrees-with-model");
+                            break;
+                        };
+                        contents = dump(&mut st.store, ns)?;
+                        if contents != model.dump() {
+                            o.fail("C05/recreated-document-not-what-was-offered", format!("after removal and re-creation the document was filled with {} but shows {}", describe_all(&model.dump()), describe_all(&contents)));
+                            break;
+                        }
+                        o.class("document-removed-re-created-and-refilled-between-queries");
                     }
                 }
                 let r = resolve_with(q, &authors, &keys, raw);
